@@ -45,6 +45,10 @@ type Cmd struct {
 	Sub     string   `json:"sub,omitempty"`     // cwd relative to project root ("" = root)
 	DirMode string   `json:"dirmode,omitempty"` // "" | abs | rel | ergo | absergo | slash | dotdot
 	Extra   []string `json:"extra,omitempty"`   // extra raw args appended (conflicting flags etc.)
+	// Loose: an input the documentation does not define (field flags next to
+	// JSON on stdin). The outcome is not predicted; a failure must still change
+	// nothing and every invariant must hold on the observation that follows.
+	Loose bool `json:"loose,omitempty"`
 }
 
 type PlanTask struct {
